@@ -293,7 +293,13 @@ class SymInt:
         b = bv(o)
         if b is None:
             return NotImplemented
-        _side(z3.And(z3.BVMulNoOverflow(s.z, b, True), z3.BVMulNoUnderflow(s.z, b)))
+        if isinstance(o, int) and not isinstance(o, bool):
+            k = abs(o)
+            if k > 1:       # constant factor: the no-wrap condition is a range check (much cheaper than the bit-blasted multiplier check)
+                lim = ((1 << (W - 1)) - 1) // k
+                _side(z3.And(s.z <= z3.BitVecVal(lim, W), s.z >= z3.BitVecVal(-lim, W)))
+        else:
+            _side(z3.And(z3.BVMulNoOverflow(s.z, b, True), z3.BVMulNoUnderflow(s.z, b)))
         return SymInt(s.z * b)
 
     __rmul__ = __mul__
@@ -315,6 +321,8 @@ class SymInt:
         b = bv(o)
         if b is None:
             return NotImplemented
+        if isinstance(o, int) and not isinstance(o, bool) and o > 0 and o & (o - 1) == 0:
+            return SymInt(s.z >> (o.bit_length() - 1))        # floor division by 2^k is an arithmetic shift
         if Ctx.cur.decide(b == 0):
             raise ZeroDivisionError('integer division or modulo by zero')
         return SymInt(_floordiv(s.z, b))
@@ -331,6 +339,8 @@ class SymInt:
         b = bv(o)
         if b is None:
             return NotImplemented
+        if isinstance(o, int) and not isinstance(o, bool) and o > 0 and o & (o - 1) == 0:
+            return SymInt(s.z & z3.BitVecVal(o - 1, W))      # modulus 2^k: Python's result is the low k bits (also for negative values)
         if Ctx.cur.decide(b == 0):
             raise ZeroDivisionError('integer division or modulo by zero')
         return SymInt(_pymod(s.z, b))
@@ -433,9 +443,10 @@ class SymInt:
         return f'SymInt({z3.simplify(s.z)})'
 
 
-def sym_int(name, lo=None, hi=None, dom=None):
-    """fresh symbolic int; optional inclusive bounds appended to `dom` (a list of z3 constraints)"""
-    v = z3.BitVec(name, W)
+def sym_int(name, lo=None, hi=None, dom=None, bits=None):
+    """fresh symbolic int; optional inclusive bounds appended to `dom` (a list of z3 constraints).
+    bits: the value is a zero-extended `bits`-wide variable (non-negative, < 2**bits) - same meaning, much cheaper to bit-blast"""
+    v = z3.BitVec(name, W) if bits is None else z3.ZeroExt(W - bits, z3.BitVec(name, bits))
     if dom is not None:
         if lo is not None:
             dom.append(v >= lo)
@@ -616,7 +627,7 @@ def model_dict(m):
         v = m[d]
         try:
             if z3.is_bv_value(v):
-                out[d.name()] = v.as_signed_long()
+                out[d.name()] = v.as_signed_long() if v.size() == W else v.as_long()
             elif z3.is_true(v) or z3.is_false(v):
                 out[d.name()] = z3.is_true(v)
             else:
@@ -629,6 +640,14 @@ def model_dict(m):
 def check_sat(assertions, timeout_ms=30000, tactic=None):
     """-> (result 'sat'|'unsat'|'unknown', model dict|None, backend, seconds); z3 first, unknown -> cvc5 on the SMT-LIB2 text"""
     t = time.time()
+    if tactic == 'cvc5':            # obligations z3 is known to be slow on: cvc5 first (no model -> a 'sat' answer is re-checked by z3 for the witness)
+        from .backends import cvc5_check
+        s0 = z3.Solver()
+        s0.add(*assertions)
+        r0 = cvc5_check(s0.to_smt2(), timeout_ms)
+        if r0 == 'unsat':
+            return 'unsat', None, 'cvc5', time.time() - t
+        tactic = 'QF_BV'
     s = z3.Solver() if tactic is None else z3.SolverFor(tactic) if tactic.startswith('QF_') else z3.Tactic(tactic).solver()
     s.set('timeout', timeout_ms)
     s.add(*assertions)
